@@ -114,8 +114,8 @@ fn observe_set(store: &AnnotationStore, h: usize, probes: &[Sx], values: &[Sx]) 
                         }
                     }
                 };
-                let (via_store, via_filter) = match key_item {
-                    None => (found.clone(), found.clone()),
+                let (via_store, via_filter, tested_store) = match key_item {
+                    None => (found.clone(), found.clone(), tested),
                     Some(key) => {
                         let enc = |d: ResultItem<AnnotationData>| if d.set().handle() == set.handle() { d.handle().as_usize() } else { 10000 + d.handle().as_usize() };
                         let op2 = dop(p.nth(1));
@@ -123,10 +123,12 @@ fn observe_set(store: &AnnotationStore, h: usize, probes: &[Sx], values: &[Sx]) 
                         let mut v2: Vec<usize> = store.data().filter_key_handle_value(set.handle(), key.handle(), op2).map(enc).collect();
                         v1.sort();
                         v2.sort();
-                        (v1, v2)
+                        // AnnotationStore::test_data: the same question as a boolean
+                        let t = store.test_data(set.handle(), key.handle(), dop(p.nth(1)));
+                        (v1, v2, t)
                     }
                 };
-                l(vec![nats(found), b(tested), nats(via_store), nats(via_filter)])
+                l(vec![nats(found), b(tested), nats(via_store), nats(via_filter), b(tested_store)])
             })
             .collect();
         let byval = values
@@ -233,5 +235,5 @@ pub fn generate(out: &mut Out, tier: &str, seed: u64) {
     }
 }
 
-pub const RULE: &str = "seeded random histories as in C01 with typed values (null, bool, int -3..3, float on a 0.5 grid plus the doubles next to 1.0 and -1.0 (which an epsilon comparison would confuse with them), strings incl. empty / non-BMP / numerals / 'true' / 'ON', nested lists), data with and without ids through datasets and through annotations, removals of data and keys (strict and not); after the history, per dataset: keys unique and id-less data never a second copy of an existing (key,value) (scan through the API), 24 probes (any key / key by id / key by handle, incl. unknown and removed keys) x random operator (all 21 variants incl. Not/And/Or nested to depth 2, Equals against bool/int/float/string, HasElement*) through find_data and test_data of the dataset and, for probes with a key, through AnnotationStore::find_data and store.data().filter_key_handle_value (which walk the data of all sets), and data_by_value for 3 keys x 6 values; then AnnotationStore::shrink_to_fit(true) and all of it again; a third of the histories run on a store configured with generate_ids. One evaluation = one dataset record.";
+pub const RULE: &str = "seeded random histories as in C01 with typed values (null, bool, int -3..3, float on a 0.5 grid plus the doubles next to 1.0 and -1.0 (which an epsilon comparison would confuse with them), strings incl. empty / non-BMP / numerals / 'true' / 'ON', nested lists), data with and without ids through datasets and through annotations, removals of data and keys (strict and not); after the history, per dataset: keys unique and id-less data never a second copy of an existing (key,value) (scan through the API), 24 probes (any key / key by id / key by handle, incl. unknown and removed keys) x random operator (all 21 variants incl. Not/And/Or nested to depth 2, Equals against bool/int/float/string, HasElement*) through find_data and test_data of the dataset and, for probes with a key, through AnnotationStore::find_data, AnnotationStore::test_data and store.data().filter_key_handle_value (which walk the data of all sets), and data_by_value for 3 keys x 6 values; then AnnotationStore::shrink_to_fit(true) and all of it again; a third of the histories run on a store configured with generate_ids. One evaluation = one dataset record.";
 pub const EXHAUSTIVE: bool = false;
